@@ -206,7 +206,7 @@ def r142(chk, m):
     for label, which, base, want in cases:
         nodes = tree(base)
         it = A.Interp(model=m, scope=fn, hooks=H(), max_iter=8, exc_edges=False, inline=3, heap=True, precise_exc=True)
-        H.should_inline = staticmethod(A.private_only)
+        H.should_inline = staticmethod(A.helpers_anywhere)
         outs = it.run_function(fn, env={'self': nodes[which]})
         got = {(kind, v if isinstance(v, str) else 'TOP') for kind, s2, v in outs}
         chk.decide(R, 'url: %s' % label, got, {('return', want)},
